@@ -9,10 +9,6 @@ open Mkts.Skel
 /-- the early-return guard of RequestFlush, as a skeleton fragment -/
 def earlyGuard : List String := ["if:len(wf.txnPipe.flushChannel) > 0{", "return", "}"]
 
-def hasSub : List String → List String → Bool
-  | [], pat => pat.isEmpty
-  | a :: l, pat => pat.isPrefixOf (a :: l) || hasSub l pat
-
 /-- does the RequestFlush of the CURRENT source return early when a request is queued?
 (regenerated from /repo on every run) -/
 def earlyInCode : Bool :=
